@@ -85,6 +85,27 @@ pub fn run_c08(ctx: &mut Ctx, idx: u64) {
         }
     };
     ctx.rep.count("automata_pairs", 1);
+    // for all haystacks of this pair: product walk of the two real automata (when both pass the
+    // closure and ranking monitors, which C07/C13 decide)
+    {
+        let (sc, sb) = (structure(ctx, &pc, None), structure(ctx, &pb, None));
+        if sc.closure.is_empty() && sc.ranking.is_empty() && sb.closure.is_empty() && sb.ranking.is_empty() {
+            let pr = crate::monitor::check_cross_variant_equivalence(&pc, &pb, ctx.transition_cap());
+            ctx.rep.count("automaton_pairs_walked", 1);
+            ctx.rep.count("product_pairs_validated", pr.pairs as u64);
+            ctx.rep.count("dfa_transitions_validated", pr.transitions);
+            if let Some(d) = pr.differences.first() {
+                ctx.rep.violation(
+                    "cross-variant-product",
+                    format!("the char-wise and the byte-wise automaton built from the same patterns are not equivalent ({}): {d}", kind_name(kind)),
+                    idx,
+                    struct_detail(&case, &spec_c, &pr.differences),
+                );
+            }
+        } else {
+            ctx.rep.count("product_walk_skipped_closure_or_ranking_failed", 1);
+        }
+    }
     let pt = PatTrie::new(&case.patterns);
     let nsb = pb.num_states();
     let nsc = pc.num_states();
